@@ -491,6 +491,29 @@ pub fn c10_case(ctx: &mut Ctx, rng: &mut Rng) {
         _ => what = "no file edited (control)".into(),
     }
     let cj = |d: String| json!({"edit": what, "files": fs.json(), "detail": d});
+    // a reader that fails with an I/O error after k bytes must surface as Err (never Ok, never a panic)
+    if rng.chance(0.08) {
+        use crate::dictprops::ChunkReader;
+        use vibrato::SystemDictionaryBuilder;
+        let target = rng.below(4);
+        let mk = |data: &'_ [u8], i: usize, k: usize| ChunkReader { data: unsafe { std::mem::transmute::<&[u8], &'static [u8]>(data) }, pos: 0, rng: Rng(k as u64 + 1), mode: 1, fail_at: if i == target { Some(k) } else { None } };
+        let conn_bytes: Vec<&Vec<u8>> = match &fs.conn {
+            ConnTexts::Matrix(m) => vec![m],
+            ConnTexts::Bigram { right, left, cost, .. } => vec![right, left, cost],
+        };
+        let lens = [fs.lex.len(), conn_bytes[0].len(), fs.char_def.len(), fs.unk.len()];
+        let k = if lens[target] == 0 { 0 } else { rng.below(lens[target]) };
+        ctx.eval();
+        let r = guarded(|| match &fs.conn {
+            ConnTexts::Matrix(m) => SystemDictionaryBuilder::from_readers(mk(&fs.lex, 0, k), mk(m, 1, k), mk(&fs.char_def, 2, k), mk(&fs.unk, 3, k)).is_ok(),
+            ConnTexts::Bigram { right, left, cost, dual } => SystemDictionaryBuilder::from_readers_with_bigram_info(mk(&fs.lex, 0, k), mk(right, 1, k), mk(left, 9, k), mk(cost, 9, k), mk(&fs.char_def, 2, k), mk(&fs.unk, 3, k), *dual).is_ok(),
+        });
+        match r {
+            Ok(false) => ctx.bucket("reader_io_error_surfaced_as_err"),
+            Ok(true) => ctx.violation("reader_io_error_swallowed", "C10:reader_io_error_swallowed", format!("input #{target} (0 lex, 1 connector, 2 char.def, 3 unk.def) fails with an I/O error after {k} bytes, yet a dictionary was returned"), cj(String::new())),
+            Err(p) => ctx.violation("builder_panicked_on_io_error", &format!("C10:io:{}", panic_class(&p)), p, cj(String::new())),
+        }
+    }
     ctx.eval();
     let outcome = build_from_texts(&fs.lex, &fs.char_def, &fs.unk, &fs.conn);
     let d = match outcome {
